@@ -140,13 +140,13 @@ pub fn c06(tier: Tier) -> PropSpec {
         parts: vec![
             Part::new(
                 "ops",
-                tier.pick(6000, 60000),
+                tier.pick(60000, 400000),
                 move || program(k, ops, true),
                 |p: &Program, st| run_program(p, Focus::Canonical, st),
             ),
             Part::new(
                 "adf-bridge",
-                tier.pick(600, 10000),
+                tier.pick(6000, 60000),
                 || sem_case(1, 6),
                 c06_bridge,
             ),
@@ -170,14 +170,14 @@ pub fn c07(tier: Tier) -> PropSpec {
         parts: vec![
             Part::new(
                 "ops",
-                tier.pick(6000, 60000),
+                tier.pick(60000, 400000),
                 move || program(k, ops, true),
                 |p: &Program, st| run_program(p, Focus::Function, st),
             ),
             // many short programs on few variables: dense in cache collisions
             Part::new(
                 "ops-dense",
-                tier.pick(4000, 40000),
+                tier.pick(60000, 600000),
                 || program(3, 40, false),
                 |p: &Program, st| run_program(p, Focus::Function, st),
             ),
